@@ -123,6 +123,8 @@ func (d *dispatcher) ServeHTTP(w http.ResponseWriter, req *http.Request) {
 	location.Scheme = ep.Scheme
 	location.Host = ep.Host
 	location.Path = req.URL.Path
+	// keep the client's own escaping (e.g. %2F inside a segment); EscapedPath ignores it unless it is a valid encoding of Path
+	location.RawPath = req.URL.RawPath
 	location.RawQuery = req.URL.Query().Encode()
 
 	newReq, cancel := newRequestForProxy(location, req, extraInfo.Hostname)
